@@ -315,7 +315,10 @@ def run(chk):
                         if o == "diverged" and re.search(r"\d{5,}|generate_series|CROSS|,", sql):
                             chk.inconc("step budget exhausted by a statement that may legitimately be long")
                         else:
-                            chk.violation({"kind": "outcome", "class": o, "deadlock_kind": s.get("deadlock_kind"), "parked_ops": s.get("parked_ops")}, f"[{stream}/{kind}] {o} parked at {s.get('parked_ops')}\n  {sql[:400]!r}", replay)
+                            # (a LIMIT in the text is part of the signature: the recorded executor defect - pipelines cut short by an
+                            # exhausted LIMIT never finalize their upstream operators - must not cover hangs of statements without one)
+                            chk.violation({"kind": "outcome", "class": o, "deadlock_kind": s.get("deadlock_kind"), "parked_ops": s.get("parked_ops"), "limit_in_text": bool(re.search(r"\blimit\b", sql, re.I))},
+                                          f"[{stream}/{kind}] {o} parked at {s.get('parked_ops')}\n  {sql[:400]!r}", replay)
                         restart_from = si
                         break
                     if o == "timeout":
